@@ -210,4 +210,99 @@ def zlibInflateNoTrailer (z : ByteArray) (limit : Nat := 1 <<< 40) : Option Byte
   let (_, out) ← inflateBlocks limit (z.size + 1) { data := z, pos := 2 } ByteArray.empty
   pure out
 
+
+/-! ## Prefix mode: everything decodable from a prefix of the stream -/
+
+/-- result of inflating a prefix -/
+inductive Progress
+  | done (out : ByteArray) (consumed : Nat)   -- final block and trailer seen
+  | more (out : ByteArray)                    -- input exhausted first
+  | bad                                       -- corrupt
+
+/-- symbols of one compressed block until input runs out (`more`), end of block, or corruption.
+    Returns `(reader after the block, out, finishedBlock)`; `none` = corrupt. -/
+def codesP (lit dist : Huff) (limit : Nat) : Nat → BitReader → ByteArray → Option (BitReader × ByteArray × Bool)
+  | 0, _, _ => none
+  | fuel+1, r, out =>
+    match decodeSym lit r with
+    | none =>
+      -- either the input ran out or no code matched within 15 bits
+      if r.pos + 2 ≥ r.data.size then some (r, out, false) else none
+    | some (sym, r1) =>
+      if sym < 256 then
+        if out.size ≥ limit then none else codesP lit dist limit fuel r1 (out.push sym.toUInt8)
+      else if sym = 256 then some (r1, out, true)
+      else
+        let s := sym - 257
+        if s ≥ 29 then none else
+        match r1.readBits lenExtra[s]! with
+        | none => some (r, out, false)
+        | some (eb, r2) =>
+          let len := lenBase[s]! + eb
+          match decodeSym dist r2 with
+          | none => if r2.pos + 2 ≥ r2.data.size then some (r, out, false) else none
+          | some (ds, r3) =>
+            if ds ≥ 30 then none else
+            match r3.readBits distExtra[ds]! with
+            | none => some (r, out, false)
+            | some (de, r4) =>
+              let d := distBase[ds]! + de
+              if d > out.size then none else
+              if out.size + len > limit then none else
+              let out' := Id.run do
+                let mut o := out
+                for _ in [0:len] do o := o.push o[o.size - d]!
+                return o
+              codesP lit dist limit fuel r4 out'
+
+/-- blocks until the final one; `Progress.more` as soon as the input runs out -/
+def inflateBlocksP (limit : Nat) : Nat → BitReader → ByteArray → Option (Option BitReader × ByteArray)
+  | 0, _, _ => none
+  | fuel+1, r, out =>
+    match r.readBit with
+    | none => some (none, out)
+    | some (last, r1) =>
+      match r1.readBits 2 with
+      | none => some (none, out)
+      | some (typ, r2) =>
+        let step : Option (BitReader × ByteArray × Bool) :=
+          match typ with
+          | 0 =>
+            let ra := r2.alignByte
+            if ra.pos + 4 > ra.data.size then some (ra, out, false) else
+            let len := ra.data[ra.pos]!.toNat + 256 * ra.data[ra.pos+1]!.toNat
+            let nlen := ra.data[ra.pos+2]!.toNat + 256 * ra.data[ra.pos+3]!.toNat
+            if len + nlen ≠ 65535 then none else
+            let avail := min len (ra.data.size - (ra.pos + 4))
+            if out.size + avail > limit then none else
+            let out' := out ++ ra.data.extract (ra.pos + 4) (ra.pos + 4 + avail)
+            some ({ ra with pos := ra.pos + 4 + avail }, out', avail == len)
+          | 1 => codesP fixedLit fixedDist limit (8 * r2.data.size + 8) r2 out
+          | 2 =>
+            match readDynamic r2 with
+            | some (lit, dist, r3) => codesP lit dist limit (8 * r3.data.size + 8) r3 out
+            | none =>
+              -- a truncated table description is "need more input"; a complete but invalid one is corrupt.
+              -- The description is at most 14 + 19*3 + 320*(15+7) bits < 900 bytes.
+              if r2.pos + 900 ≥ r2.data.size then some (r2, out, false) else none
+          | _ => none
+        match step with
+        | none => none
+        | some (_, out', false) => some (none, out')
+        | some (r', out', true) => if last = 1 then some (some r', out') else inflateBlocksP limit fuel r' out'
+
+/-- everything decodable from a prefix `z` of a zlib stream -/
+def zlibPrefix (z : ByteArray) (checkAdler : Bool) (limit : Nat := 1 <<< 40) : Progress :=
+  if z.size < 2 then .more ByteArray.empty else
+  let cmf := z[0]!.toNat; let flg := z[1]!.toNat
+  if cmf % 16 ≠ 8 ∨ cmf / 16 > 7 ∨ flg &&& 32 ≠ 0 ∨ (cmf * 256 + flg) % 31 ≠ 0 then .bad else
+  match inflateBlocksP limit (z.size + 1) { data := z, pos := 2 } ByteArray.empty with
+  | none => .bad
+  | some (none, out) => .more out
+  | some (some r, out) =>
+    let r := r.alignByte
+    if r.pos + 4 > z.size then .more out else
+    let ad := ((z[r.pos]!.toNat * 256 + z[r.pos+1]!.toNat) * 256 + z[r.pos+2]!.toNat) * 256 + z[r.pos+3]!.toNat
+    if checkAdler ∧ ad ≠ adler out then .bad else .done out (r.pos + 4)
+
 end Png.Inf
